@@ -656,7 +656,7 @@ static void fam_envelope() {
 
 // valid but hostile: very deep array nesting (a "batch of batches")
 static void fam_deep() {
-  std::vector<long> depths = {100, 1000, 10000, 30000, 100000, 1000000};
+  std::vector<long> depths = {100, 1000, 10000, 30000, 50000, 100000, 1000000};
   printf("@INFO deep: arrays nested %ld..%ld deep through 3 protos (one forked child each)\n", depths.front(), depths.back());
   long n = 0;
   for (long d : depths) for (int k = 0; k < NPROTO; k++) {
